@@ -245,6 +245,111 @@ static std::string run(const std::string &line)
       auto r = s.local_value(Point<2>(px, py, cs == "s" ? spherical : cartesian));
       return vec({r.interpolated_value});
     }
+  // ---- C and C++ wrappers ---------------------------------------------------------------------
+  if (cmd == "cworld")
+    {
+      // cworld <slot> <file> <has_dir: 0|1|null> <dir|null> <seed>
+      int slot; std::string file, hd, dir; unsigned long seed;
+      in >> slot >> file >> hd >> dir >> seed;
+      bool has = hd == "1";
+      void *ptr = nullptr;
+      if (cworlds.count(slot)) { release_world(cworlds[slot]); cworlds.erase(slot); }
+      create_world(&ptr, file.c_str(), hd == "null" ? nullptr : &has, dir == "null" ? nullptr : dir.c_str(), seed);
+      cworlds[slot] = ptr;
+      return "ok";
+    }
+  if (cmd == "cfree") { int slot; in >> slot; if (cworlds.count(slot)) { release_world(cworlds[slot]); cworlds.erase(slot); } return "ok"; }
+  if (cmd == "wworld")
+    {
+      int slot; std::string file, hd, dir; unsigned long seed;
+      in >> slot >> file >> hd >> dir >> seed;
+      cppworlds.erase(slot);
+      cppworlds[slot] = std::unique_ptr<wrapper_cpp::WorldBuilderWrapper>(new wrapper_cpp::WorldBuilderWrapper(file, hd == "1", dir == "null" ? "" : dir, seed));
+      return "ok";
+    }
+  if (cmd == "nworld")
+    {
+      // native world with all constructor arguments
+      int slot; std::string file, hd, dir; unsigned long seed;
+      in >> slot >> file >> hd >> dir >> seed;
+      worlds.erase(slot);
+      worlds[slot] = std::unique_ptr<World>(new World(file, hd == "1", dir == "null" ? "" : dir, seed));
+      return "ok";
+    }
+  if (cmd == "csize" || cmd == "cp3" || cmd == "cp2")
+    {
+      int slot; in >> slot;
+      double x = 0, y = 0, z = 0, depth = 0;
+      if (cmd == "cp3") { x = rd(in); y = rd(in); z = rd(in); depth = rd(in); }
+      if (cmd == "cp2") { x = rd(in); z = rd(in); depth = rd(in); }
+      auto ps = rd_props(in);
+      std::vector<unsigned int> flat(ps.size()*3 + 3);
+      for (size_t i = 0; i < ps.size(); ++i) { flat[3*i] = ps[i][0]; flat[3*i+1] = ps[i][1]; flat[3*i+2] = ps[i][2]; }
+      auto arr = reinterpret_cast<const unsigned int (*)[3]>(flat.data());
+      unsigned int n = properties_output_size(cworlds.at(slot), arr, static_cast<unsigned int>(ps.size()));
+      if (cmd == "csize") return "ok " + std::to_string(n);
+      std::vector<double> values(n + 4, -777.0);
+      if (cmd == "cp3") properties_3d(cworlds.at(slot), x, y, z, depth, arr, static_cast<unsigned int>(ps.size()), values.data());
+      else properties_2d(cworlds.at(slot), x, z, depth, arr, static_cast<unsigned int>(ps.size()), values.data());
+      for (size_t k = n; k < values.size(); ++k) if (values[k] != -777.0) return "bad wrote-past-the-end";
+      values.resize(n);
+      return vec(values);
+    }
+  if (cmd == "ct3" || cmd == "cc3" || cmd == "wt3" || cmd == "wc3")
+    {
+      int slot; in >> slot;
+      double x = rd(in), y = rd(in), z = rd(in), depth = rd(in), out = -777.0;
+      unsigned int c = 0; if (cmd[1] == 'c') in >> c;
+      if (cmd == "ct3") temperature_3d(cworlds.at(slot), x, y, z, depth, &out);
+      if (cmd == "cc3") composition_3d(cworlds.at(slot), x, y, z, depth, c, &out);
+      if (cmd == "wt3") out = cppworlds.at(slot)->temperature_3d(x, y, z, depth);
+      if (cmd == "wc3") out = cppworlds.at(slot)->composition_3d(x, y, z, depth, c);
+      return vec({out});
+    }
+  if (cmd == "ct2" || cmd == "cc2" || cmd == "wt2" || cmd == "wc2")
+    {
+      int slot; in >> slot;
+      double x = rd(in), z = rd(in), depth = rd(in), out = -777.0;
+      unsigned int c = 0; if (cmd[1] == 'c') in >> c;
+      if (cmd == "ct2") temperature_2d(cworlds.at(slot), x, z, depth, &out);
+      if (cmd == "cc2") composition_2d(cworlds.at(slot), x, z, depth, c, &out);
+      if (cmd == "wt2") out = cppworlds.at(slot)->temperature_2d(x, z, depth);
+      if (cmd == "wc2") out = cppworlds.at(slot)->composition_2d(x, z, depth, c);
+      return vec({out});
+    }
+  if (cmd == "mt")
+    {
+      // mt <slot> <T> <n> (x y z depth)*n <props>: every thread issues all n queries concurrently
+      // (thread t starts at query t); the answers must equal the sequential ones
+      int slot; size_t T, n; in >> slot >> T >> n;
+      std::vector<std::array<double,4>> qs(n);
+      for (auto &q : qs) { q[0] = rd(in); q[1] = rd(in); q[2] = rd(in); q[3] = rd(in); }
+      auto ps = rd_props(in);
+      const World &w = *worlds.at(slot);
+      auto ask = [&](size_t i) -> std::vector<double>
+      {
+        try { return w.properties(std::array<double,3>{{qs[i][0], qs[i][1], qs[i][2]}}, qs[i][3], ps); }
+        catch (...) { return std::vector<double>{-12345.678}; }
+      };
+      std::vector<std::vector<double>> seq(n);
+      for (size_t i = 0; i < n; ++i) seq[i] = ask(i);
+      std::vector<int> bad(T, -1);
+      std::vector<std::thread> th;
+      for (size_t t = 0; t < T; ++t)
+        th.emplace_back([&, t]()
+        {
+          for (size_t k = 0; k < n; ++k)
+            {
+              size_t i = (k + t) % n;
+              std::vector<double> a = ask(i);
+              if (a.size() != seq[i].size() || std::memcmp(a.data(), seq[i].data(), a.size()*sizeof(double)) != 0)
+                { bad[t] = static_cast<int>(i); return; }
+            }
+        });
+      for (auto &t : th) t.join();
+      for (size_t t = 0; t < T; ++t) if (bad[t] >= 0) return "bad thread " + std::to_string(t) + " query " + std::to_string(bad[t]);
+      return "ok same";
+    }
   if (cmd == "globals")
     {
       int slot; in >> slot; World &w = *worlds.at(slot);
